@@ -304,6 +304,7 @@ class Tr:
                 ty = "oz" if name not in env.vars else env.vars[name][1]
                 if self.none_type.get(name):
                     ty = self.none_type[name]
+                t = {"oidx": "(None : option nat)", "osnap": "(None : option snap)", "oz": "(None : option Z)"}.get(ty, t)
             cn = self.coqname(name)
             self.bind(name, cn, ty, env)
             return f"let {cn} := {t} in\n  " + self.block(rest, env, k)
@@ -607,6 +608,124 @@ def gen_append_mlog(mm: ast.Module) -> str:
             f"  {tail}.\n")
 
 
+
+class DeleteTr(Tr):
+    """SnapshotManager.delete_snapshot between refresh() and commit(): result = pyres (option meta)
+    (PyOk None = returns False without committing; PyOk (Some m') = commits m' and returns True)."""
+
+    def __init__(self):
+        super().__init__("SnapshotManager.delete_snapshot", "ometa")
+        self.committed = False
+
+    def newmeta(self, env: Env) -> str:
+        g = lambda a: env.fields[f"new_metadata.{a}"][0]
+        return f"(with_snaps m {g('current_snapshot_id')} {g('snapshots')} {g('snapshot_log')})"
+
+    def ret(self, s: ast.Return, env: Env) -> str:
+        v = _u(s.value) if s.value is not None else "None"
+        if v == "False":
+            if self.committed:
+                raise self.bad("returns False after committing")
+            return "PyOk None"
+        if v == "True":
+            if not self.committed:
+                raise self.bad("returns True without committing")
+            if "new_metadata.snapshots" in env.stale:
+                raise self.bad("commits a stale snapshot list")
+            return f"PyOk (Some {self.newmeta(env)})"
+        raise self.bad(f"returns {v}")
+
+    def block(self, stmts: List[ast.stmt], env: Env, k) -> str:
+        if not stmts:
+            return k(env)
+        s, rest = stmts[0], stmts[1:]
+        # new_metadata = deepcopy(base_metadata): a separate object with the same field values
+        if isinstance(s, ast.Assign) and _u(s) == "new_metadata = deepcopy(base_metadata)":
+            for f in ("snapshots", "snapshot_log", "current_snapshot_id"):
+                t, ty, rf = env.fields[f"base_metadata.{f}"]
+                env.fields[f"new_metadata.{f}"] = (t, ty, rf)
+            return self.block(rest, env, k)
+        # for i, v in enumerate(xs): if c: acc = i; break
+        if (isinstance(s, ast.For) and isinstance(s.target, ast.Tuple) and len(s.target.elts) == 2 and not s.orelse
+                and isinstance(s.iter, ast.Call) and _u(s.iter.func) == "enumerate" and len(s.iter.args) == 1
+                and len(s.body) == 1 and isinstance(s.body[0], ast.If) and not s.body[0].orelse and len(s.body[0].body) == 2
+                and isinstance(s.body[0].body[0], ast.Assign) and isinstance(s.body[0].body[1], ast.Break)
+                and _u(s.body[0].body[0].value) == s.target.elts[0].id and isinstance(s.body[0].body[0].targets[0], ast.Name)):
+            i, v = s.target.elts[0].id, s.target.elts[1].id
+            acc = s.body[0].body[0].targets[0].id
+            if env.vars.get(acc, ("", ""))[1] != "oidx":
+                raise self.bad(f"{acc} is not initialised to None before the search loop")
+            src, st = self.expr(s.iter.args[0], env)
+            if st != "snaps":
+                raise self.bad("enumerate over non-snapshots")
+            inner = env.copy()
+            inner.vars[v] = (v, "snap")
+            c = self.cond(s.body[0].test, inner)
+            env.vars[acc] = (acc, "oidx")
+            self.idx_source[acc] = _u(s.iter.args[0])
+            return f"let {acc} := py_index_where (fun {v} => {c}) {src} in\n  " + self.block(rest, env, k)
+        # if acc is not None: <body ending in return>
+        if (isinstance(s, ast.If) and not s.orelse and isinstance(s.test, ast.Compare) and isinstance(s.test.left, ast.Name)
+                and env.vars.get(s.test.left.id, ("", ""))[1] == "oidx" and _u(s.test) == f"{s.test.left.id} is not None"
+                and s.body and isinstance(s.body[-1], ast.Return)):
+            a = s.test.left.id
+            inner = env.copy()
+            inner.vars[a] = (a + "_v", "idx")
+            body = self.block(s.body, inner, k)
+            return f"match {a} with\n  | Some {a}_v => {body}\n  | None => " + self.block(rest, env, k) + "\n  end"
+        # del xs[idx]
+        if isinstance(s, ast.Delete) and len(s.targets) == 1 and isinstance(s.targets[0], ast.Subscript) and isinstance(s.targets[0].slice, ast.Name):
+            tgt = _u(s.targets[0].value)
+            ix = s.targets[0].slice.id
+            if env.vars.get(ix, ("", ""))[1] != "idx":
+                raise self.bad(f"del with index {ix}")
+            l, lt = self.lookup(tgt, env)
+            if lt != "snaps":
+                raise self.bad("del on a non-snapshot list")
+            # the index was found in a list with the same elements (the base's snapshots, deep-copied)
+            cn = self.coqname(tgt)
+            self.bind(tgt, cn, "snaps", env)
+            return f"let {cn} := py_del_at {env.vars[ix][0]} {l} in\n  " + self.block(rest, env, k)
+        # if c: x = self._most_recent_snapshot_id(new_metadata)      (may raise: the continuation is duplicated)
+        if (isinstance(s, ast.If) and not s.orelse and len(s.body) == 1 and isinstance(s.body[0], ast.Assign)
+                and _u(s.body[0].value) == "self._most_recent_snapshot_id(new_metadata)"):
+            c = self.cond(s.test, env)
+            tgt = _u(s.body[0].targets[0])
+            e_then = env.copy()
+            cn = self.coqname(tgt)
+            self.bind(tgt, cn, "oz", e_then)
+            then = (f"match gen_most_recent {self.newmeta(env)} with\n    | PyOk {cn} => " + self.block(rest, e_then, k)
+                    + "\n    | PyRaise => PyRaise\n    end")
+            return f"if {c} then {then}\n  else " + self.block(rest, env, k)
+        # self.metadata_manager.commit(base_metadata, new_metadata)
+        if isinstance(s, ast.Expr) and _u(s) == "self.metadata_manager.commit(base_metadata, new_metadata)":
+            self.committed = True
+            r = self.block(rest, env, k)
+            self.committed = False
+            return r
+        return super().block(stmts, env, k)
+
+    idx_source: Dict[str, str] = {}
+
+
+def gen_delete_snapshot(sm: ast.Module) -> str:
+    fn = find_function(sm, "delete_snapshot", "SnapshotManager")
+    if [a.arg for a in fn.args.args] != ["self", "snapshot_id"]:
+        raise Unsupported("delete_snapshot signature changed")
+    body = strip_docstring(fn.body)
+    head = [_u(x) for x in body[:2]]
+    if head != ["base_metadata = self.metadata_manager.refresh()", "if base_metadata is None:\n    return False"]:
+        raise Unsupported(f"delete_snapshot: head changed: {head}")
+    tr = DeleteTr()
+    tr.none_type = {"snapshot_to_remove": "oidx"}
+    fields = {k.replace("metadata.", "base_metadata."): v for k, v in meta_fields("metadata").items()}
+    env = Env({"snapshot_id": ("snapshot_id", "z")}, fields)
+    term = tr.block(body[2:], env, lambda e: (_ for _ in ()).throw(tr.bad("falls off the end")))
+    return ("(* SnapshotManager.delete_snapshot(snapshot_id) on the metadata refresh() returned (m), up to the commit:\n"
+            "   PyOk None = no such snapshot, nothing committed, returns False; PyOk (Some m') = commits m', returns True *)\n"
+            f"Definition gen_delete_snapshot (m : meta) (snapshot_id : Z) : pyres (option meta) :=\n  {term}.\n")
+
+
 @generator("GenMeta.v")
 def gen(src: str) -> str:
     sm = parse_module(src, "snapshot_manager.py")
@@ -624,6 +743,7 @@ def gen(src: str) -> str:
         gen_most_recent(sm),
         gen_by_timestamp(sm),
         gen_append_mlog(mm),
+        gen_delete_snapshot(sm),
     ]
     return "\n".join(parts)
 
